@@ -28,7 +28,11 @@ pub enum FOp {
 }
 
 #[derive(Clone, Debug)]
-pub enum DirOp { Create(String), Unlink(String) }
+pub enum DirOp {
+    /// (name, unique id of this creation: names are reused, e.g. segment 1 after the log was emptied)
+    Create(String, u64),
+    Unlink(String),
+}
 
 #[derive(Default)]
 struct FileTrack { unsynced: Vec<FOp> }
@@ -294,8 +298,8 @@ impl SimDisk {
         for (i, op) in d.dirops.iter().enumerate() {
             if i >= keep_dirops { desc.push(format!("lost-dirop:{:?}", op)); continue; }
             match op {
-                DirOp::Create(name) => {
-                    let pend = d.durable.join(format!(".pending-{name}"));
+                DirOp::Create(name, uid) => {
+                    let pend = d.durable.join(format!(".pending-{uid}"));
                     if pend.exists() { sparse_copy(&pend, &out.join(name)).unwrap(); } else { File::create(out.join(name)).unwrap(); }
                 }
                 DirOp::Unlink(name) => { let _ = fs::remove_file(out.join(name)); }
@@ -485,23 +489,24 @@ impl Observer for SimDisk {
                     Op::Append { data } => d.files.entry(fname).or_default().unsynced.push(FOp::Append { off, data: data.to_vec() }),
                     Op::SetLen(n) => d.files.entry(fname).or_default().unsynced.push(FOp::SetLen(*n)),
                     Op::Fsync => {
-                        let pending = d.dirops.iter().any(|o| matches!(o, DirOp::Create(n) if *n == fname));
-                        let target = if pending { d.durable.join(format!(".pending-{fname}")) } else { d.durable.join(&fname) };
+                        let pending = d.dirops.iter().rev().find_map(|o| match o { DirOp::Create(n, uid) if *n == fname => Some(*uid), _ => None });
+                        let target = match pending { Some(uid) => d.durable.join(format!(".pending-{uid}")), None => d.durable.join(&fname) };
                         if let Some(ft) = d.files.get_mut(&fname) { for o in ft.unsynced.drain(..) { apply_fop(&target, &o); } }
-                        else if pending && !target.exists() { File::create(&target).unwrap(); }
+                        else if pending.is_some() && !target.exists() { File::create(&target).unwrap(); }
                     }
                     Op::DirSync => {
                         for o in d.dirops.drain(..) {
                             match o {
-                                DirOp::Create(n) => {
-                                    let pend = d.durable.join(format!(".pending-{n}"));
+                                DirOp::Create(n, uid) => {
+                                    let pend = d.durable.join(format!(".pending-{uid}"));
+                                    let _ = fs::remove_file(d.durable.join(&n));
                                     if pend.exists() { fs::rename(&pend, d.durable.join(&n)).unwrap(); } else { File::create(d.durable.join(&n)).unwrap(); }
                                 }
-                                DirOp::Unlink(n) => { let _ = fs::remove_file(d.durable.join(&n)); let _ = fs::remove_file(d.durable.join(format!(".pending-{n}"))); }
+                                DirOp::Unlink(n) => { let _ = fs::remove_file(d.durable.join(&n)); }
                             }
                         }
                     }
-                    Op::Create(_) => d.dirops.push(DirOp::Create(fname)),
+                    Op::Create(_) => { let uid = st.seq; d.dirops.push(DirOp::Create(fname, uid)); }
                     Op::Unlink(_) => { d.files.remove(&fname); d.dirops.push(DirOp::Unlink(fname)); }
                     _ => {}
                 }
